@@ -335,3 +335,443 @@ Theorem model_is_source_C10_Roots : forall RA : RootArith, SrcEqRoots.model_is_s
 Proof. intros RA. exact (SrcEqRoots.model_is_source_Roots_lemma RA). Qed.
 Check model_is_source_C10_Roots : forall RA : RootArith, SrcEqRoots.model_is_source_Roots RA.
 Print Assumptions model_is_source_C10_Roots.
+
+(* ================= the FLOAT half for the closed forms, in the standard model of rounding (package quadround) =================
+   degree 1 and 2 completely; degree 3: the triple-root branch, and the Cardano branch under the hypotheses that exclude KF-C10-F.
+   Proofs/RootsRound.v: the model's poly_solve / quadratic_solve instantiated at [RoundRAo eps O]: Complex<f64> = C = R * R
+   (Coquelicot), every ROUNDED complex operation an arbitrary function with normwise relative error eps ([std_model eps O]:
+   + - * / , Complex * f64, and Complex::sqrt with relative error eps with respect to SOME square root); negation, conjugation,
+   .real, the comparisons `>= 0.0` / `== zero` and the literals 4.0 1.0 -1.0 0.5 exact, as in IEEE arithmetic; every other
+   operation of the arithmetic (O : RoundOps) arbitrary.  NO hypothesis on the discriminant: cancellation in b^2 - 4ac does not
+   harm the residual (normwise backward error of ONE root); the sign choice of the code is PROVED to avoid cancellation in
+   b + sgn * sqrt(disc), with the rounded product conj(b) * sqrt(disc) the code tests.
+   NO UNDERFLOW, NO OVERFLOW: [std_model eps O] demands the relative error bound at EVERY argument, so it is a statement about an
+   arithmetic with an unbounded exponent range (binary64 satisfies it only on operands whose exact results stay in the normal
+   range); [quad_ops_ok eps O a b c] (theorem quadratic_residual_local) demands it exactly at the arguments of the (at most) twelve
+   rounded operations performed on the input (a, b, c) -- for binary64: none of these operations underflows or overflows.  Every
+   theorem below carries one of the two hypotheses, and that is what excludes the recorded class KF-C10-H
+   (findings/C10-closed-form-scale.md: on the real code 1e-30 (x-1)(x-2)(x-3) gives NaN, 1e-85 (x-1)(x-2) gives 1.5 and 1.333,
+   because Complex::sqrt / pow / abs / div square their argument's components): see the Example
+   quadratic_hypotheses_exclude_KF_C10_H_example -- an arithmetic whose sqrt flushes small arguments to 0, as the code's does,
+   violates quad_ops_ok, returns the same wrong values and violates the bound.
+   The simultaneous COMPONENTWISE form (both values roots of ONE quadratic with |db| <= k eps |b|) is false -- see
+   quadratic_componentwise_simultaneous_refuted_example below (b = 0: the two returned values do not sum to 0); the true simultaneous
+   statement is quadratic_simultaneous_backward_error. *)
+From Coq Require Import Reals.
+From Coquelicot Require Import Complex.
+From OV Require Import Proofs.RoundFlx Proofs.RootsRound Proofs.RootsRoundEx Proofs.RootsRoundFwd Proofs.RootsRoundCubic Proofs.RootsRoundCardano Proofs.RootsRoundFlx.
+
+(* degree 1: the returned value is the exact root of c1 x + c0 (1 + d), |d| <= eps (one negation, exact; one division) *)
+Theorem linear_root_backward_error : forall (eps : R) (O : RoundOps) (c0 c1 : C),
+  (0 <= eps)%R -> std_model eps O -> c1 <> RtoC 0 ->
+  exists r d : C, poly_solve (RoundRAo eps O) [c0; c1] false = Ok ([r], []) /\
+    (Cmod d <= eps)%R /\ (c1 * r + c0 * (RtoC 1 + d))%C = RtoC 0.
+Proof. intros eps O c0 c1. exact (linear_root_backward_error_lemma eps O c0 c1). Qed.
+Check linear_root_backward_error : forall (eps : R) (O : RoundOps) (c0 c1 : C),
+  (0 <= eps)%R -> std_model eps O -> c1 <> RtoC 0 ->
+  exists r d : C, poly_solve (RoundRAo eps O) [c0; c1] false = Ok ([r], []) /\
+    (Cmod d <= eps)%R /\ (c1 * r + c0 * (RtoC 1 + d))%C = RtoC 0.
+Print Assumptions linear_root_backward_error.
+
+(* degree 2, residual form: |a x^2 + b x + c| <= 16 eps (|a||x|^2 + |b||x| + |c|) for BOTH returned values, every a <> 0, b, c
+   (std_model: relative error eps at EVERY argument = no underflow, no overflow: the class KF-C10-H is outside the hypothesis) *)
+Theorem quadratic_residual_bound : forall (eps : R) (O : RoundOps) (a b c : C),
+  (0 <= eps <= / 100)%R -> std_model eps O -> a <> RtoC 0 ->
+  exists r0 r1 : C, poly_solve (RoundRAo eps O) [c; b; a] false = Ok ([r0; r1], []) /\
+    forall x : C, x = r0 \/ x = r1 ->
+      (Cmod (a * x * x + b * x + c)%C <= 16 * eps * (Cmod a * Cmod x * Cmod x + Cmod b * Cmod x + Cmod c))%R.
+Proof. intros eps O a b c. exact (quadratic_residual_bound_lemma eps O a b c). Qed.
+Check quadratic_residual_bound : forall (eps : R) (O : RoundOps) (a b c : C),
+  (0 <= eps <= / 100)%R -> std_model eps O -> a <> RtoC 0 ->
+  exists r0 r1 : C, poly_solve (RoundRAo eps O) [c; b; a] false = Ok ([r0; r1], []) /\
+    forall x : C, x = r0 \/ x = r1 ->
+      (Cmod (a * x * x + b * x + c)%C <= 16 * eps * (Cmod a * Cmod x * Cmod x + Cmod b * Cmod x + Cmod c))%R.
+Print Assumptions quadratic_residual_bound.
+
+(* the same bound from the LOCAL hypotheses only: [quad_ops_ok eps O a b c] (Proofs/RootsRound.v) says that each of the at most
+   twelve rounded operations quadratic_solve performs ON THIS INPUT -- b*b, a*4.0, (4a)*c, the subtraction, sqrt(disc),
+   conj(b)*sqrt(disc), sqrt(disc)*sgn, the addition, the scaling by -0.5, q/a and (when q <> 0) c/q -- has normwise relative
+   error eps at the arguments that occur; nothing is assumed about any other argument, so an arithmetic with a bounded
+   exponent range qualifies on the inputs that stay in range *)
+Theorem quadratic_residual_local : forall (eps : R) (O : RoundOps) (a b c : C),
+  (0 <= eps <= / 100)%R -> a <> RtoC 0 -> quad_ops_ok eps O a b c ->
+  exists r0 r1 : C, poly_solve (RoundRAo eps O) [c; b; a] false = Ok ([r0; r1], []) /\
+    forall x : C, x = r0 \/ x = r1 ->
+      (Cmod (a * x * x + b * x + c)%C <= 16 * eps * (Cmod a * Cmod x * Cmod x + Cmod b * Cmod x + Cmod c))%R.
+Proof. intros eps O a b c. exact (quadratic_residual_local_lemma eps O a b c). Qed.
+Check quadratic_residual_local : forall (eps : R) (O : RoundOps) (a b c : C),
+  (0 <= eps <= / 100)%R -> a <> RtoC 0 -> quad_ops_ok eps O a b c ->
+  exists r0 r1 : C, poly_solve (RoundRAo eps O) [c; b; a] false = Ok ([r0; r1], []) /\
+    forall x : C, x = r0 \/ x = r1 ->
+      (Cmod (a * x * x + b * x + c)%C <= 16 * eps * (Cmod a * Cmod x * Cmod x + Cmod b * Cmod x + Cmod c))%R.
+Print Assumptions quadratic_residual_local.
+Example quadratic_residual_local_nonvacuous :
+  (0 <= / 1024 <= / 100)%R /\ RtoC 1 <> RtoC 0 /\ quad_ops_ok (/ 1024) (pert_ops (/ 1024)) (RtoC 1) (RtoC (-5)) (RtoC 2).
+Proof. exact quad_ops_ok_nonvacuous. Qed.
+(* strictly more general than the global form: [sat_ops e] = the perturbing arithmetic whose products of modulus > 1000 "overflow"
+   (0 is returned) is NOT an instance of std_model, yet on x^2 - 5x + 2 every operation performed stays in range *)
+Example quadratic_residual_local_bounded_range_nonvacuous :
+  let e := (/ 1024)%R in
+  (0 <= e <= / 100)%R /\ RtoC 1 <> RtoC 0 /\ ~ std_model e (sat_ops e) /\ quad_ops_ok e (sat_ops e) (RtoC 1) (RtoC (-5)) (RtoC 2).
+Proof. exact sat_ops_ok_lemma. Qed.
+
+(* ... and the backward form from the same local hypotheses: if none of the operations performed on (a, b, c) leaves the range in
+   which it has relative error eps, each returned value is an exact root of a quadratic within 16 eps, coefficient by coefficient *)
+Theorem quadratic_backward_error_local : forall (eps : R) (O : RoundOps) (a b c : C),
+  (0 <= eps <= / 100)%R -> a <> RtoC 0 -> quad_ops_ok eps O a b c ->
+  exists r0 r1 : C, poly_solve (RoundRAo eps O) [c; b; a] false = Ok ([r0; r1], []) /\
+    forall x : C, x = r0 \/ x = r1 ->
+      exists da db dc : C,
+        (Cmod da <= 16 * eps * Cmod a)%R /\ (Cmod db <= 16 * eps * Cmod b)%R /\ (Cmod dc <= 16 * eps * Cmod c)%R /\
+        ((a + da) * x * x + (b + db) * x + (c + dc))%C = RtoC 0.
+Proof. intros eps O a b c. exact (quadratic_backward_local_lemma eps O a b c). Qed.
+Check quadratic_backward_error_local : forall (eps : R) (O : RoundOps) (a b c : C),
+  (0 <= eps <= / 100)%R -> a <> RtoC 0 -> quad_ops_ok eps O a b c ->
+  exists r0 r1 : C, poly_solve (RoundRAo eps O) [c; b; a] false = Ok ([r0; r1], []) /\
+    forall x : C, x = r0 \/ x = r1 ->
+      exists da db dc : C,
+        (Cmod da <= 16 * eps * Cmod a)%R /\ (Cmod db <= 16 * eps * Cmod b)%R /\ (Cmod dc <= 16 * eps * Cmod c)%R /\
+        ((a + da) * x * x + (b + db) * x + (c + dc))%C = RtoC 0.
+Print Assumptions quadratic_backward_error_local.
+(* non-vacuity: quadratic_residual_local_nonvacuous, quadratic_residual_local_bounded_range_nonvacuous above *)
+
+(* ... and both returned values at once (the statement of quadratic_simultaneous_backward_error below) from the local hypotheses *)
+Theorem quadratic_simultaneous_backward_error_local : forall (eps : R) (O : RoundOps) (a b c : C),
+  (0 <= eps <= / 100)%R -> a <> RtoC 0 -> quad_ops_ok eps O a b c ->
+  exists r0 r1 db dc : C, poly_solve (RoundRAo eps O) [c; b; a] false = Ok ([r0; r1], []) /\
+    (forall x : C, (a * x * x + (b + db) * x + (c + dc))%C = (a * (x - r0) * (x - r1))%C) /\
+    (Cmod dc <= (2 * eps + eps * eps) * Cmod c)%R /\
+    (Cmod db * Cmod db <= (16 * eps) * (16 * eps) * (Cmod b * Cmod b + 4 * (Cmod a * Cmod c)))%R.
+Proof. intros eps O a b c. exact (quadratic_simultaneous_local_lemma eps O a b c). Qed.
+Check quadratic_simultaneous_backward_error_local : forall (eps : R) (O : RoundOps) (a b c : C),
+  (0 <= eps <= / 100)%R -> a <> RtoC 0 -> quad_ops_ok eps O a b c ->
+  exists r0 r1 db dc : C, poly_solve (RoundRAo eps O) [c; b; a] false = Ok ([r0; r1], []) /\
+    (forall x : C, (a * x * x + (b + db) * x + (c + dc))%C = (a * (x - r0) * (x - r1))%C) /\
+    (Cmod dc <= (2 * eps + eps * eps) * Cmod c)%R /\
+    (Cmod db * Cmod db <= (16 * eps) * (16 * eps) * (Cmod b * Cmod b + 4 * (Cmod a * Cmod c)))%R.
+Print Assumptions quadratic_simultaneous_backward_error_local.
+
+(* the hypothesis is what excludes the range failures KF-C10-H: [flush_ops e] = the perturbing arithmetic whose Complex::sqrt returns 0
+   for arguments of modulus <= 1 (the real Complex::sqrt does so below 1e-162, where re^2 + im^2 underflows).  On (x^2 - 3x + 2)/10
+   (discriminant 0.01) quad_ops_ok FAILS -- 0 is within eps of no square root of a non-zero number --, the model returns
+   -b/2a (1+e)^3 = 1.5 (1+e)^3 as on the real code for 1e-85 (x-1)(x-2), and the bound of quadratic_residual_local is violated *)
+Example quadratic_hypotheses_exclude_KF_C10_H_example :
+  let e := (/ 4096)%R in let a := RtoC (/ 10) in let b := RtoC (-3 / 10) in let c := RtoC (2 / 10) in
+  ~ quad_ops_ok e (flush_ops e) a b c /\
+  exists r0 r1 : C, poly_solve (RoundRAo e (flush_ops e)) [c; b; a] false = Ok ([r0; r1], []) /\
+    ~ (Cmod (a * r0 * r0 + b * r0 + c)%C <= 16 * e * (Cmod a * Cmod r0 * Cmod r0 + Cmod b * Cmod r0 + Cmod c))%R.
+Proof. exact flush_excluded_4096. Qed.
+
+(* degree 2, backward form: each returned value is an EXACT root of a quadratic whose three coefficients are within 16 eps,
+   relatively and componentwise (the perturbation depends on the root) *)
+Theorem quadratic_backward_error : forall (eps : R) (O : RoundOps) (a b c : C),
+  (0 <= eps <= / 100)%R -> std_model eps O -> a <> RtoC 0 ->
+  exists r0 r1 : C, poly_solve (RoundRAo eps O) [c; b; a] false = Ok ([r0; r1], []) /\
+    forall x : C, x = r0 \/ x = r1 ->
+      exists da db dc : C,
+        (Cmod da <= 16 * eps * Cmod a)%R /\ (Cmod db <= 16 * eps * Cmod b)%R /\ (Cmod dc <= 16 * eps * Cmod c)%R /\
+        ((a + da) * x * x + (b + db) * x + (c + dc))%C = RtoC 0.
+Proof. intros eps O a b c. exact (quadratic_backward_error_lemma eps O a b c). Qed.
+Check quadratic_backward_error : forall (eps : R) (O : RoundOps) (a b c : C),
+  (0 <= eps <= / 100)%R -> std_model eps O -> a <> RtoC 0 ->
+  exists r0 r1 : C, poly_solve (RoundRAo eps O) [c; b; a] false = Ok ([r0; r1], []) /\
+    forall x : C, x = r0 \/ x = r1 ->
+      exists da db dc : C,
+        (Cmod da <= 16 * eps * Cmod a)%R /\ (Cmod db <= 16 * eps * Cmod b)%R /\ (Cmod dc <= 16 * eps * Cmod c)%R /\
+        ((a + da) * x * x + (b + db) * x + (c + dc))%C = RtoC 0.
+Print Assumptions quadratic_backward_error.
+
+(* degree 2, BOTH returned values at once: they are the two roots of a x^2 + (b + db) x + (c + dc) (a unperturbed) with
+   |dc| <= (2 eps + eps^2) |c| and |db| <= 16 eps sqrt(|b|^2 + 4|a||c|) -- normwise in the scaling of the quadratic; a bound
+   relative to |b| alone is not attainable (quadratic_componentwise_simultaneous_refuted_example below) *)
+Theorem quadratic_simultaneous_backward_error : forall (eps : R) (O : RoundOps) (a b c : C),
+  (0 <= eps <= / 100)%R -> std_model eps O -> a <> RtoC 0 ->
+  exists r0 r1 db dc : C, poly_solve (RoundRAo eps O) [c; b; a] false = Ok ([r0; r1], []) /\
+    (forall x : C, (a * x * x + (b + db) * x + (c + dc))%C = (a * (x - r0) * (x - r1))%C) /\
+    (Cmod dc <= (2 * eps + eps * eps) * Cmod c)%R /\
+    (Cmod db * Cmod db <= (16 * eps) * (16 * eps) * (Cmod b * Cmod b + 4 * (Cmod a * Cmod c)))%R.
+Proof. intros eps O a b c. exact (quadratic_simultaneous_backward_lemma eps O a b c). Qed.
+Check quadratic_simultaneous_backward_error : forall (eps : R) (O : RoundOps) (a b c : C),
+  (0 <= eps <= / 100)%R -> std_model eps O -> a <> RtoC 0 ->
+  exists r0 r1 db dc : C, poly_solve (RoundRAo eps O) [c; b; a] false = Ok ([r0; r1], []) /\
+    (forall x : C, (a * x * x + (b + db) * x + (c + dc))%C = (a * (x - r0) * (x - r1))%C) /\
+    (Cmod dc <= (2 * eps + eps * eps) * Cmod c)%R /\
+    (Cmod db * Cmod db <= (16 * eps) * (16 * eps) * (Cmod b * Cmod b + 4 * (Cmod a * Cmod c)))%R.
+Print Assumptions quadratic_simultaneous_backward_error.
+
+(* degree 2, in the measure of the failing-input search of driver/c10.py: |p(x)| / (max |a_k| max(1,|x|)^2) <= 48 eps *)
+Theorem quadratic_search_measure_bound : forall (eps : R) (O : RoundOps) (a b c : C) (M : R),
+  (0 <= eps <= / 100)%R -> std_model eps O -> a <> RtoC 0 -> (Cmod a <= M)%R -> (Cmod b <= M)%R -> (Cmod c <= M)%R ->
+  exists r0 r1 : C, poly_solve (RoundRAo eps O) [c; b; a] false = Ok ([r0; r1], []) /\
+    forall x : C, x = r0 \/ x = r1 ->
+      (Cmod (a * x * x + b * x + c)%C <= 48 * eps * (M * (Rmax 1 (Cmod x) * Rmax 1 (Cmod x))))%R.
+Proof. intros eps O a b c M. exact (quadratic_search_measure_bound_lemma eps O a b c M). Qed.
+Check quadratic_search_measure_bound : forall (eps : R) (O : RoundOps) (a b c : C) (M : R),
+  (0 <= eps <= / 100)%R -> std_model eps O -> a <> RtoC 0 -> (Cmod a <= M)%R -> (Cmod b <= M)%R -> (Cmod c <= M)%R ->
+  exists r0 r1 : C, poly_solve (RoundRAo eps O) [c; b; a] false = Ok ([r0; r1], []) /\
+    forall x : C, x = r0 \/ x = r1 ->
+      (Cmod (a * x * x + b * x + c)%C <= 48 * eps * (M * (Rmax 1 (Cmod x) * Rmax 1 (Cmod x))))%R.
+Print Assumptions quadratic_search_measure_bound.
+
+(* the repaired branch `q == zero` in rounded arithmetic: taken if and only if b = c = 0, and then the values returned are
+   [0; 0], the exact roots of a x^2; otherwise the product of the two returned values is c / a to within two roundings *)
+Theorem quadratic_q0_backward : forall (eps : R) (O : RoundOps) (a b c : C),
+  (0 <= eps <= / 100)%R -> std_model eps O -> a <> RtoC 0 ->
+  let q := q_q (o_add O) (o_sub O) (o_mul O) (o_scale O) (o_sqrt O) a b c in
+  (q = RtoC 0 <-> b = RtoC 0 /\ c = RtoC 0) /\
+  (q = RtoC 0 -> poly_solve (RoundRAo eps O) [c; b; a] false = Ok ([RtoC 0; RtoC 0], [])) /\
+  (q <> RtoC 0 -> exists r0 r1 d : C, poly_solve (RoundRAo eps O) [c; b; a] false = Ok ([r0; r1], []) /\
+                   (Cmod d <= 2 * eps + eps * eps)%R /\ (r0 * r1)%C = (c / a * (RtoC 1 + d))%C).
+Proof. intros eps O a b c. exact (quadratic_q0_backward_lemma eps O a b c). Qed.
+Check quadratic_q0_backward : forall (eps : R) (O : RoundOps) (a b c : C),
+  (0 <= eps <= / 100)%R -> std_model eps O -> a <> RtoC 0 ->
+  let q := q_q (o_add O) (o_sub O) (o_mul O) (o_scale O) (o_sqrt O) a b c in
+  (q = RtoC 0 <-> b = RtoC 0 /\ c = RtoC 0) /\
+  (q = RtoC 0 -> poly_solve (RoundRAo eps O) [c; b; a] false = Ok ([RtoC 0; RtoC 0], [])) /\
+  (q <> RtoC 0 -> exists r0 r1 d : C, poly_solve (RoundRAo eps O) [c; b; a] false = Ok ([r0; r1], []) /\
+                   (Cmod d <= 2 * eps + eps * eps)%R /\ (r0 * r1)%C = (c / a * (RtoC 1 + d))%C).
+Print Assumptions quadratic_q0_backward.
+(* non-vacuity of the theorems above: eps = 1/1024 is admissible and [pert_ops (1/1024)] (every rounded operation returns
+   the exact result times 1 + 1/1024; Complex::sqrt = the principal square root times 1 + 1/1024) satisfies std_model and is
+   really inexact: fl(1 * 1) <> 1 *)
+Example quadratic_backward_error_nonvacuous :
+  (0 <= / 1024 <= / 100)%R /\ std_model (/ 1024) (pert_ops (/ 1024)) /\ o_mul (pert_ops (/ 1024)) (RtoC 1) (RtoC 1) <> RtoC 1.
+Proof. exact pert_nonvacuous. Qed.
+(* why the theorems are stated per root: in that arithmetic, on x^2 - 1 (b = 0) the two returned values do not sum to 0, so NO
+   quadratic a' x^2 + 0 x + c' with a' <> 0 -- the only ones allowed by |db| <= k eps |b| = 0 -- has both of them as roots *)
+Example quadratic_componentwise_simultaneous_refuted_example :
+  exists r0 r1 : C, poly_solve (RoundRAo (/ 1024) (pert_ops (/ 1024))) [RtoC (-1); RtoC 0; RtoC 1] false = Ok ([r0; r1], []) /\
+    (r0 + r1)%C <> RtoC 0 /\ r0 <> r1 /\
+    forall a' c' : C, a' <> RtoC 0 ->
+      ~ ((a' * r0 * r0 + RtoC 0 * r0 + c')%C = RtoC 0 /\ (a' * r1 * r1 + RtoC 0 * r1 + c')%C = RtoC 0).
+Proof. exact quadratic_componentwise_simultaneous_refuted_1024. Qed.
+
+(* ---- forward error (Proofs/RootsRoundFwd.v).  o_sh O a b c is the value Complex::sqrt returned for the COMPUTED discriminant,
+   qdisc a b c = b*b - a*4*c the exact one.  GIVEN an accurate discriminant -- |sh^2 - disc| <= eta |disc|; the discriminant may
+   suffer cancellation (b^2 ~ 4ac), then eta is not O(eps) and the hypothesis says so -- both returned values have relative
+   error 6 eps + 2 eta with respect to the two exact roots (the textbook result for q = -(b + sgn sqrt(disc))/2, q/a, c/q) *)
+Theorem quadratic_forward_error : forall (eps : R) (O : RoundOps) (a b c : C) (eta : R),
+  (0 <= eps <= / 100)%R -> std_model eps O -> a <> RtoC 0 -> (0 <= eta <= / 6)%R ->
+  (Cmod (o_sh O a b c * o_sh O a b c - qdisc a b c)%C <= eta * Cmod (qdisc a b c))%R ->
+  exists r0 r1 x0 x1 : C, poly_solve (RoundRAo eps O) [c; b; a] false = Ok ([r0; r1], []) /\
+    (forall x : C, (a * x * x + b * x + c)%C = (a * (x - x0) * (x - x1))%C) /\
+    (Cmod (r0 - x0)%C <= (6 * eps + 2 * eta) * Cmod x0)%R /\ (Cmod (r1 - x1)%C <= (6 * eps + 2 * eta) * Cmod x1)%R.
+Proof. intros eps O a b c eta. exact (quadratic_forward_lemma eps O a b c eta). Qed.
+Check quadratic_forward_error : forall (eps : R) (O : RoundOps) (a b c : C) (eta : R),
+  (0 <= eps <= / 100)%R -> std_model eps O -> a <> RtoC 0 -> (0 <= eta <= / 6)%R ->
+  (Cmod (o_sh O a b c * o_sh O a b c - qdisc a b c)%C <= eta * Cmod (qdisc a b c))%R ->
+  exists r0 r1 x0 x1 : C, poly_solve (RoundRAo eps O) [c; b; a] false = Ok ([r0; r1], []) /\
+    (forall x : C, (a * x * x + b * x + c)%C = (a * (x - x0) * (x - x1))%C) /\
+    (Cmod (r0 - x0)%C <= (6 * eps + 2 * eta) * Cmod x0)%R /\ (Cmod (r1 - x1)%C <= (6 * eps + 2 * eta) * Cmod x1)%R.
+Print Assumptions quadratic_forward_error.
+Example quadratic_forward_error_nonvacuous :
+  (0 <= / 1024 <= / 100)%R /\ std_model (/ 1024) (pert_ops (/ 1024)) /\ RtoC 1 <> RtoC 0 /\ (0 <= 15.33 * / 1024 <= / 6)%R /\
+  disc_accurate (pert_ops (/ 1024)) (RtoC 1) (RtoC (-5)) (RtoC 2) (15.33 * / 1024).
+Proof. exact forward_nonvacuous. Qed.
+
+(* the hypothesis discharged in general: with kD >= (|b|^2 + 4|a||c|) / |b^2 - 4ac|, the condition number of the discriminant (large
+   near a double root), the computed discriminant is accurate to 5.11 eps kD, hence -- no hypothesis left but 5.11 eps kD <= 1/6 --
+   both returned values have relative error (6 + 10.22 kD) eps: the conditioning statement of the textbook *)
+Theorem quadratic_forward_error_conditioned : forall (eps : R) (O : RoundOps) (a b c : C) (kD : R),
+  (0 <= eps <= / 100)%R -> std_model eps O -> a <> RtoC 0 -> (0 <= kD)%R ->
+  (Cmod b * Cmod b + 4 * (Cmod a * Cmod c) <= kD * Cmod (qdisc a b c))%R -> (5.11 * eps * kD <= / 6)%R ->
+  exists r0 r1 x0 x1 : C, poly_solve (RoundRAo eps O) [c; b; a] false = Ok ([r0; r1], []) /\
+    (forall x : C, (a * x * x + b * x + c)%C = (a * (x - x0) * (x - x1))%C) /\
+    (Cmod (r0 - x0)%C <= (6 + 10.22 * kD) * eps * Cmod x0)%R /\ (Cmod (r1 - x1)%C <= (6 + 10.22 * kD) * eps * Cmod x1)%R.
+Proof. intros eps O a b c kD. exact (quadratic_forward_conditioned_lemma eps O a b c kD). Qed.
+Check quadratic_forward_error_conditioned : forall (eps : R) (O : RoundOps) (a b c : C) (kD : R),
+  (0 <= eps <= / 100)%R -> std_model eps O -> a <> RtoC 0 -> (0 <= kD)%R ->
+  (Cmod b * Cmod b + 4 * (Cmod a * Cmod c) <= kD * Cmod (qdisc a b c))%R -> (5.11 * eps * kD <= / 6)%R ->
+  exists r0 r1 x0 x1 : C, poly_solve (RoundRAo eps O) [c; b; a] false = Ok ([r0; r1], []) /\
+    (forall x : C, (a * x * x + b * x + c)%C = (a * (x - x0) * (x - x1))%C) /\
+    (Cmod (r0 - x0)%C <= (6 + 10.22 * kD) * eps * Cmod x0)%R /\ (Cmod (r1 - x1)%C <= (6 + 10.22 * kD) * eps * Cmod x1)%R.
+Print Assumptions quadratic_forward_error_conditioned.
+(* non-vacuity: quadratic_forward_error_dominant_nonvacuous below (kD = 3) *)
+
+(* the same from the LOCAL hypotheses (quad_ops_ok: no operation performed on (a, b, c) leaves the range in which it has relative
+   error eps -- for binary64: no underflow, no overflow on this input; KF-C10-H excluded) *)
+Theorem quadratic_forward_error_conditioned_local : forall (eps : R) (O : RoundOps) (a b c : C) (kD : R),
+  (0 <= eps <= / 100)%R -> a <> RtoC 0 -> quad_ops_ok eps O a b c -> (0 <= kD)%R ->
+  (Cmod b * Cmod b + 4 * (Cmod a * Cmod c) <= kD * Cmod (qdisc a b c))%R -> (5.11 * eps * kD <= / 6)%R ->
+  exists r0 r1 x0 x1 : C, poly_solve (RoundRAo eps O) [c; b; a] false = Ok ([r0; r1], []) /\
+    (forall x : C, (a * x * x + b * x + c)%C = (a * (x - x0) * (x - x1))%C) /\
+    (Cmod (r0 - x0)%C <= (6 + 10.22 * kD) * eps * Cmod x0)%R /\ (Cmod (r1 - x1)%C <= (6 + 10.22 * kD) * eps * Cmod x1)%R.
+Proof. intros eps O a b c kD. exact (quadratic_forward_conditioned_local_lemma eps O a b c kD). Qed.
+Check quadratic_forward_error_conditioned_local : forall (eps : R) (O : RoundOps) (a b c : C) (kD : R),
+  (0 <= eps <= / 100)%R -> a <> RtoC 0 -> quad_ops_ok eps O a b c -> (0 <= kD)%R ->
+  (Cmod b * Cmod b + 4 * (Cmod a * Cmod c) <= kD * Cmod (qdisc a b c))%R -> (5.11 * eps * kD <= / 6)%R ->
+  exists r0 r1 x0 x1 : C, poly_solve (RoundRAo eps O) [c; b; a] false = Ok ([r0; r1], []) /\
+    (forall x : C, (a * x * x + b * x + c)%C = (a * (x - x0) * (x - x1))%C) /\
+    (Cmod (r0 - x0)%C <= (6 + 10.22 * kD) * eps * Cmod x0)%R /\ (Cmod (r1 - x1)%C <= (6 + 10.22 * kD) * eps * Cmod x1)%R.
+Print Assumptions quadratic_forward_error_conditioned_local.
+(* non-vacuity: quadratic_residual_local_bounded_range_nonvacuous above (x^2 - 5x + 2: kD = 3) *)
+
+(* the discriminant IS accurate, with no hypothesis, when one of b^2, 4ac dominates the other by a factor 2 ... *)
+Theorem disc_accurate_dominant : forall (eps : R) (O : RoundOps) (a b c : C),
+  (0 <= eps <= / 100)%R -> std_model eps O ->
+  (8 * (Cmod a * Cmod c) <= Cmod b * Cmod b)%R \/ (2 * (Cmod b * Cmod b) <= 4 * (Cmod a * Cmod c))%R ->
+  (Cmod (o_sh O a b c * o_sh O a b c - qdisc a b c)%C <= 15.33 * eps * Cmod (qdisc a b c))%R.
+Proof. intros eps O a b c. exact (disc_accurate_dominant_lemma eps O a b c). Qed.
+Check disc_accurate_dominant : forall (eps : R) (O : RoundOps) (a b c : C),
+  (0 <= eps <= / 100)%R -> std_model eps O ->
+  (8 * (Cmod a * Cmod c) <= Cmod b * Cmod b)%R \/ (2 * (Cmod b * Cmod b) <= 4 * (Cmod a * Cmod c))%R ->
+  (Cmod (o_sh O a b c * o_sh O a b c - qdisc a b c)%C <= 15.33 * eps * Cmod (qdisc a b c))%R.
+Print Assumptions disc_accurate_dominant.
+
+(* ... and then both returned values have relative error 37 eps, unconditionally *)
+Theorem quadratic_forward_error_dominant : forall (eps : R) (O : RoundOps) (a b c : C),
+  (0 <= eps <= / 100)%R -> std_model eps O -> a <> RtoC 0 ->
+  (8 * (Cmod a * Cmod c) <= Cmod b * Cmod b)%R \/ (2 * (Cmod b * Cmod b) <= 4 * (Cmod a * Cmod c))%R ->
+  exists r0 r1 x0 x1 : C, poly_solve (RoundRAo eps O) [c; b; a] false = Ok ([r0; r1], []) /\
+    (forall x : C, (a * x * x + b * x + c)%C = (a * (x - x0) * (x - x1))%C) /\
+    (Cmod (r0 - x0)%C <= 37 * eps * Cmod x0)%R /\ (Cmod (r1 - x1)%C <= 37 * eps * Cmod x1)%R.
+Proof. intros eps O a b c. exact (quadratic_forward_dominant_lemma eps O a b c). Qed.
+Check quadratic_forward_error_dominant : forall (eps : R) (O : RoundOps) (a b c : C),
+  (0 <= eps <= / 100)%R -> std_model eps O -> a <> RtoC 0 ->
+  (8 * (Cmod a * Cmod c) <= Cmod b * Cmod b)%R \/ (2 * (Cmod b * Cmod b) <= 4 * (Cmod a * Cmod c))%R ->
+  exists r0 r1 x0 x1 : C, poly_solve (RoundRAo eps O) [c; b; a] false = Ok ([r0; r1], []) /\
+    (forall x : C, (a * x * x + b * x + c)%C = (a * (x - x0) * (x - x1))%C) /\
+    (Cmod (r0 - x0)%C <= 37 * eps * Cmod x0)%R /\ (Cmod (r1 - x1)%C <= 37 * eps * Cmod x1)%R.
+Print Assumptions quadratic_forward_error_dominant.
+(* x^2 - 5x + 2 in the perturbing arithmetic: b^2 = 25 >= 16 = 8|a||c| *)
+Example quadratic_forward_error_dominant_nonvacuous :
+  RtoC 1 <> RtoC 0 /\ (8 * (Cmod (RtoC 1) * Cmod (RtoC 2)) <= Cmod (RtoC (-5)) * Cmod (RtoC (-5)))%R.
+Proof. exact forward_dominant_nonvacuous. Qed.
+
+(* ---- degree 3 (std_model again: no underflow / overflow -- KF-C10-H excluded), the triple-root branch only (Proofs/RootsRoundCubic.v): when the COMPUTED d0 = fl(b^2 - 3ac) and
+   d1 = fl(2b^3 - 9abc + 27a^2 d) are both zero ([c_d0], [c_d1]: every operation rounded) cubic_solve returns three copies of
+   r = fl(-b / fl(3a)) and r has a small residual, although the cubic need not be a perfect cube.  The Cardano branch -- where the
+   recorded class KF-C10-F lives -- is not covered. *)
+Theorem cubic_triple_branch_residual : forall (eps : R) (O : RoundOps) (a b c d : C),
+  (0 <= eps <= / 100)%R -> std_model eps O -> a <> RtoC 0 -> c_d0 O a b c = RtoC 0 -> c_d1 O a b c d = RtoC 0 ->
+  cubic_solve (RoundRAo eps O) a b c d = Ok [c_r O a b; c_r O a b; c_r O a b] /\
+  (Cmod (a * c_r O a b * c_r O a b * c_r O a b + b * c_r O a b * c_r O a b + c * c_r O a b + d)%C
+   <= 16 * eps * (Cmod a * Cmod (c_r O a b) * Cmod (c_r O a b) * Cmod (c_r O a b)
+                  + Cmod b * Cmod (c_r O a b) * Cmod (c_r O a b) + Cmod c * Cmod (c_r O a b) + Cmod d))%R.
+Proof. intros eps O a b c d. exact (cubic_triple_branch_lemma eps O a b c d). Qed.
+Check cubic_triple_branch_residual : forall (eps : R) (O : RoundOps) (a b c d : C),
+  (0 <= eps <= / 100)%R -> std_model eps O -> a <> RtoC 0 -> c_d0 O a b c = RtoC 0 -> c_d1 O a b c d = RtoC 0 ->
+  cubic_solve (RoundRAo eps O) a b c d = Ok [c_r O a b; c_r O a b; c_r O a b] /\
+  (Cmod (a * c_r O a b * c_r O a b * c_r O a b + b * c_r O a b * c_r O a b + c * c_r O a b + d)%C
+   <= 16 * eps * (Cmod a * Cmod (c_r O a b) * Cmod (c_r O a b) * Cmod (c_r O a b)
+                  + Cmod b * Cmod (c_r O a b) * Cmod (c_r O a b) + Cmod c * Cmod (c_r O a b) + Cmod d))%R.
+Print Assumptions cubic_triple_branch_residual.
+(* x^3 - 3x^2 + (3/f) x + (2f - 3), f = 1 + 1/1024, in the perturbing arithmetic: computed d0 = d1 = 0, the value 1 is returned,
+   and it is NOT a root (the cubic is not a perfect cube) *)
+Example cubic_triple_branch_residual_nonvacuous :
+  let e := (/ 1024)%R in let f := (1 + e)%R in
+  let a := RtoC 1 in let b := RtoC (-3) in let c := RtoC (3 / f) in let d := RtoC (2 * f - 3) in
+  (0 <= e <= / 100)%R /\ std_model e (pert_ops e) /\ a <> RtoC 0 /\
+  c_d0 (pert_ops e) a b c = RtoC 0 /\ c_d1 (pert_ops e) a b c d = RtoC 0 /\
+  c_r (pert_ops e) a b = RtoC 1 /\ cval a b c d (RtoC 1) <> RtoC 0.
+Proof. exact cubic_triple_branch_nonvacuous_lemma. Qed.
+
+(* ---- degree 3, the CARDANO branch, AWAY from the recorded class KF-C10-F (Proofs/RootsRoundCardano.v).  Both mechanisms of
+   KF-C10-F are hypotheses here, and that is the point of the statement:
+     (1) accuracy: the value k^ the code obtains from Complex::pow (c_khat: computed from the EXPANDED discriminant, the libm
+         sqrt and pow) is within eps of an exact Cardano cube root k (cardano_eq: k^3 is a root of K^2 - d1 K + d0^3), the
+         constant u^ the code builds from sqrt(3)/2 is within eps of a primitive cube root of unity u, the computed d0 within
+         eps of b^2 - 3ac  -- fails near a multiple root (cancellation in dis / d0), where KF-C10-F records root errors ~1e-3;
+     (2) no cancellation in the final sums: |b| + |w| + |d0/w| <= kap |b + w + d0/w| for w = k, u k, u^2 k  -- fails for roots
+         of very different size (the second mechanism of KF-C10-F); kap is the condition number that multiplies the bound.
+   Then the three returned values are within relative distance 12 kap eps of the three exact roots -(b + w + d0/w)/(3a) ... *)
+Theorem cubic_cardano_forward_error : forall (eps : R) (O : RoundOps) (a b c d k u : C) (kap : R),
+  (0 <= eps <= / 100)%R -> std_model eps O -> a <> RtoC 0 ->
+  ~ (c_d0 O a b c = RtoC 0 /\ c_d1 O a b c d = RtoC 0) ->
+  k <> RtoC 0 -> cardano_eq a b c d k -> (u * u + u + RtoC 1)%C = RtoC 0 ->
+  relc eps (c_khat eps O a b c d) k -> relc eps (c_uhat O) u -> relc eps (c_d0 O a b c) (d0x a b c) ->
+  (forall w : C, w = k \/ w = (u * k)%C \/ w = (u * u * k)%C ->
+     (Cmod b + Cmod w + Cmod (d0x a b c / w)%C <= kap * Cmod (b + w + d0x a b c / w)%C)%R) ->
+  exists r0 r1 r2 : C, cubic_solve (RoundRAo eps O) a b c d = Ok [r0; r1; r2] /\
+    cval a b c d (cardano_val a b c k) = RtoC 0 /\ cval a b c d (cardano_val a b c (u * k)%C) = RtoC 0 /\
+    cval a b c d (cardano_val a b c (u * u * k)%C) = RtoC 0 /\
+    (Cmod (r0 - cardano_val a b c k)%C <= kap * (12 * eps) * Cmod (cardano_val a b c k))%R /\
+    (Cmod (r1 - cardano_val a b c (u * k)%C)%C <= kap * (12 * eps) * Cmod (cardano_val a b c (u * k)%C))%R /\
+    (Cmod (r2 - cardano_val a b c (u * u * k)%C)%C <= kap * (12 * eps) * Cmod (cardano_val a b c (u * u * k)%C))%R.
+Proof. intros eps O a b c d k u kap. exact (cubic_cardano_forward_lemma eps O a b c d k u kap). Qed.
+Check cubic_cardano_forward_error : forall (eps : R) (O : RoundOps) (a b c d k u : C) (kap : R),
+  (0 <= eps <= / 100)%R -> std_model eps O -> a <> RtoC 0 ->
+  ~ (c_d0 O a b c = RtoC 0 /\ c_d1 O a b c d = RtoC 0) ->
+  k <> RtoC 0 -> cardano_eq a b c d k -> (u * u + u + RtoC 1)%C = RtoC 0 ->
+  relc eps (c_khat eps O a b c d) k -> relc eps (c_uhat O) u -> relc eps (c_d0 O a b c) (d0x a b c) ->
+  (forall w : C, w = k \/ w = (u * k)%C \/ w = (u * u * k)%C ->
+     (Cmod b + Cmod w + Cmod (d0x a b c / w)%C <= kap * Cmod (b + w + d0x a b c / w)%C)%R) ->
+  exists r0 r1 r2 : C, cubic_solve (RoundRAo eps O) a b c d = Ok [r0; r1; r2] /\
+    cval a b c d (cardano_val a b c k) = RtoC 0 /\ cval a b c d (cardano_val a b c (u * k)%C) = RtoC 0 /\
+    cval a b c d (cardano_val a b c (u * u * k)%C) = RtoC 0 /\
+    (Cmod (r0 - cardano_val a b c k)%C <= kap * (12 * eps) * Cmod (cardano_val a b c k))%R /\
+    (Cmod (r1 - cardano_val a b c (u * k)%C)%C <= kap * (12 * eps) * Cmod (cardano_val a b c (u * k)%C))%R /\
+    (Cmod (r2 - cardano_val a b c (u * u * k)%C)%C <= kap * (12 * eps) * Cmod (cardano_val a b c (u * u * k)%C))%R.
+Print Assumptions cubic_cardano_forward_error.
+
+(* ... and have residual |p(x)| <= 60 kap eps (|a||x|^3 + |b||x|^2 + |c||x| + |d|) *)
+Theorem cubic_cardano_residual : forall (eps : R) (O : RoundOps) (a b c d k u : C) (kap : R),
+  (0 <= eps <= / 100)%R -> std_model eps O -> a <> RtoC 0 ->
+  ~ (c_d0 O a b c = RtoC 0 /\ c_d1 O a b c d = RtoC 0) ->
+  k <> RtoC 0 -> cardano_eq a b c d k -> (u * u + u + RtoC 1)%C = RtoC 0 ->
+  relc eps (c_khat eps O a b c d) k -> relc eps (c_uhat O) u -> relc eps (c_d0 O a b c) (d0x a b c) ->
+  (forall w : C, w = k \/ w = (u * k)%C \/ w = (u * u * k)%C ->
+     (Cmod b + Cmod w + Cmod (d0x a b c / w)%C <= kap * Cmod (b + w + d0x a b c / w)%C)%R) ->
+  (0 <= kap)%R -> (kap * (12 * eps) <= / 10)%R ->
+  exists r0 r1 r2 : C, cubic_solve (RoundRAo eps O) a b c d = Ok [r0; r1; r2] /\
+    forall x : C, x = r0 \/ x = r1 \/ x = r2 -> (Cmod (cval a b c d x) <= 60 * kap * eps * csize a b c d x)%R.
+Proof. intros eps O a b c d k u kap. exact (cubic_cardano_residual_lemma eps O a b c d k u kap). Qed.
+Check cubic_cardano_residual : forall (eps : R) (O : RoundOps) (a b c d k u : C) (kap : R),
+  (0 <= eps <= / 100)%R -> std_model eps O -> a <> RtoC 0 ->
+  ~ (c_d0 O a b c = RtoC 0 /\ c_d1 O a b c d = RtoC 0) ->
+  k <> RtoC 0 -> cardano_eq a b c d k -> (u * u + u + RtoC 1)%C = RtoC 0 ->
+  relc eps (c_khat eps O a b c d) k -> relc eps (c_uhat O) u -> relc eps (c_d0 O a b c) (d0x a b c) ->
+  (forall w : C, w = k \/ w = (u * k)%C \/ w = (u * u * k)%C ->
+     (Cmod b + Cmod w + Cmod (d0x a b c / w)%C <= kap * Cmod (b + w + d0x a b c / w)%C)%R) ->
+  (0 <= kap)%R -> (kap * (12 * eps) <= / 10)%R ->
+  exists r0 r1 r2 : C, cubic_solve (RoundRAo eps O) a b c d = Ok [r0; r1; r2] /\
+    forall x : C, x = r0 \/ x = r1 \/ x = r2 -> (Cmod (cval a b c d x) <= 60 * kap * eps * csize a b c d x)%R.
+Print Assumptions cubic_cardano_residual.
+(* x^3 - 1 in the perturbing arithmetic with pow returning the exact Cardano cube root -3 (pow is an oracle of the model; its
+   accuracy is hypothesis (1)): every hypothesis holds with kap = 1, and the first exact root is 1 *)
+Example cubic_cardano_residual_nonvacuous :
+  let e := (/ 1024)%R in let O := cardano_ops e in
+  let a := RtoC 1 in let b := RtoC 0 in let c := RtoC 0 in let d := RtoC (-1) in
+  let k := RtoC (-3) in let u : C := (Ropp (/ 2), (R_sqrt.sqrt 3 / 2)%R) in
+  (0 <= e <= / 100)%R /\ std_model e O /\ a <> RtoC 0 /\ ~ (c_d0 O a b c = RtoC 0 /\ c_d1 O a b c d = RtoC 0) /\
+  k <> RtoC 0 /\ cardano_eq a b c d k /\ (u * u + u + RtoC 1)%C = RtoC 0 /\
+  relc e (c_khat e O a b c d) k /\ relc e (c_uhat O) u /\ relc e (c_d0 O a b c) (d0x a b c) /\
+  (forall w : C, w = k \/ w = (u * k)%C \/ w = (u * u * k)%C ->
+     (Cmod b + Cmod w + Cmod (d0x a b c / w)%C <= 1 * Cmod (b + w + d0x a b c / w)%C)%R) /\
+  (0 <= 1)%R /\ (1 * (12 * e) <= / 10)%R /\ cardano_val a b c k = RtoC 1.
+Proof. exact cardano_nonvacuous_lemma. Qed.
+
+(* ---- an instance of std_model that REALLY ROUNDS (unbounded exponent range: no underflow, no overflow), built from the model's own
+   complex operators (Proofs/RootsRoundFlx.v):
+   [flx_ops fsqrt] = cadd / csub / cmul / cdiv / cmul_r of Model/Complex.v (the formulas of src/complex/mod.rs) over the
+   arithmetic AFlx of Proofs/RoundFlx.v (every real operation rounded to nearest-even at 53 bits, unbounded exponent; ux = 2^-53),
+   through the normwise bounds of Proofs/ComplexRound.v:  eps_flx = (3/2) kappa(2u + u^2) <= 8 ux  (the quotient is the worst
+   operator).  Complex::sqrt is libm-backed: it stays a function fsqrt with relative error eps_flx w.r.t. some square root. *)
+Theorem flx_std_model : forall fsqrt : C -> C,
+  (forall z : C, exists w : C, (w * w)%C = z /\ (Cmod (fsqrt z - w)%C <= eps_flx * Cmod w)%R) ->
+  (0 <= eps_flx <= / 100)%R /\ (eps_flx <= 8 * ux)%R /\ std_model eps_flx (flx_ops fsqrt).
+Proof. intros fsqrt. exact (flx_std_model_lemma fsqrt). Qed.
+Check flx_std_model : forall fsqrt : C -> C,
+  (forall z : C, exists w : C, (w * w)%C = z /\ (Cmod (fsqrt z - w)%C <= eps_flx * Cmod w)%R) ->
+  (0 <= eps_flx <= / 100)%R /\ (eps_flx <= 8 * ux)%R /\ std_model eps_flx (flx_ops fsqrt).
+Print Assumptions flx_std_model.
+
+(* hence, for the model's quadratic_solve over the model's complex operators over correctly rounded reals:
+   |a x^2 + b x + c| <= 128 * 2^-53 * (|a||x|^2 + |b||x| + |c|) for both returned values, every a <> 0, b, c *)
+Theorem quadratic_residual_flx : forall (fsqrt : C -> C) (a b c : C),
+  (forall z : C, exists w : C, (w * w)%C = z /\ (Cmod (fsqrt z - w)%C <= eps_flx * Cmod w)%R) -> a <> RtoC 0 ->
+  exists r0 r1 : C, poly_solve (RoundRAo eps_flx (flx_ops fsqrt)) [c; b; a] false = Ok ([r0; r1], []) /\
+    forall x : C, x = r0 \/ x = r1 ->
+      (Cmod (a * x * x + b * x + c)%C <= 128 * ux * (Cmod a * Cmod x * Cmod x + Cmod b * Cmod x + Cmod c))%R.
+Proof. intros fsqrt a b c. exact (quadratic_residual_flx_lemma fsqrt a b c). Qed.
+Check quadratic_residual_flx : forall (fsqrt : C -> C) (a b c : C),
+  (forall z : C, exists w : C, (w * w)%C = z /\ (Cmod (fsqrt z - w)%C <= eps_flx * Cmod w)%R) -> a <> RtoC 0 ->
+  exists r0 r1 : C, poly_solve (RoundRAo eps_flx (flx_ops fsqrt)) [c; b; a] false = Ok ([r0; r1], []) /\
+    forall x : C, x = r0 \/ x = r1 ->
+      (Cmod (a * x * x + b * x + c)%C <= 128 * ux * (Cmod a * Cmod x * Cmod x + Cmod b * Cmod x + Cmod c))%R.
+Print Assumptions quadratic_residual_flx.
+(* the exact principal square root is an admissible fsqrt, and the arithmetic really rounds: fl((1 + 0i) * (1/3)) <> 1/3 *)
+Example quadratic_residual_flx_nonvacuous :
+  (forall z : C, exists w : C, (w * w)%C = z /\ (Cmod (Csqrt z - w)%C <= eps_flx * Cmod w)%R) /\ RtoC 1 <> RtoC 0 /\
+  flx_scale (RtoC 1) (1 / 3)%R <> (RtoC 1 * RtoC (1 / 3)%R)%C.
+Proof. exact flx_nonvacuous. Qed.
